@@ -28,6 +28,10 @@ type liveFenceSwitches struct {
 	obj  geojson.Object
 	cmd  string
 	roam roamSwitches
+	// the area was given by reference (GET key id), followed by getTail
+	// more tokens; obj is the object as it was when the command ran
+	getArea bool
+	getTail int
 }
 
 type roamSwitches struct {
@@ -425,6 +429,7 @@ func (s *Server) cmdSearchArgs(
 			return
 		}
 		lfs.obj = o.Geo()
+		lfs.getArea, lfs.getTail = true, len(vs)
 	case "roam":
 		lfs.roam.on = true
 		if vs, lfs.roam.key, ok = tokenval(vs); !ok || lfs.roam.key == "" {
